@@ -103,6 +103,15 @@ var baseAttrs = map[int]baseAttr{
 	1: {0, "bip84", 8, false}, 2: {0, "bip86", 4, false}, 3: {0, "bip86", 2, false},
 	4: {1, "bip84", 1, false}, 5: {0, "bip84", 16, true}, 6: {0, "bip86", 32, false},
 	7: {0, "bip49", 64, false}, 8: {0, "bip44", 128, false},
+	9: {2, "bip84", 256, false}, // account 2 of the model = the imported-keys account
+}
+
+// acctNum maps the model's account to the wallet's account number.
+func acctNum(a int) uint32 {
+	if a == 2 {
+		return waddrmgr.ImportedAddrAccount
+	}
+	return uint32(a)
 }
 
 var scopeOf = map[string]waddrmgr.KeyScope{"bip84": waddrmgr.KeyScopeBIP0084, "bip86": waddrmgr.KeyScopeBIP0086,
@@ -379,7 +388,24 @@ func (w *spWorld) setup() error {
 	w.foreign, _ = txscript.PayToAddrScript(fa)
 	for c := 1; c <= w.nbase; c++ {
 		at := baseAttrs[c]
-		addr, err := e.w.NewAddress(at.acct, scopeOf[at.scope])
+		var addr btcutil.Address
+		var err error
+		if at.acct == 2 {
+			// a single private key imported into the scope (the wallet is unlocked here)
+			kh := sha256.Sum256([]byte(fmt.Sprintf("imported-key-%s-%d", w.tagSeed, c)))
+			priv, _ := btcec.PrivKeyFromBytes(kh[:])
+			wif, werr := btcutil.NewWIF(priv, e.params, true)
+			if werr != nil {
+				return werr
+			}
+			sc := scopeOf[at.scope]
+			if _, err = e.w.ImportPrivateKey(sc, wif, nil, false); err != nil {
+				return fmt.Errorf("ImportPrivateKey: %w", err)
+			}
+			addr, err = btcutil.NewAddressWitnessPubKeyHash(btcutil.Hash160(priv.PubKey().SerializeCompressed()), e.params)
+		} else {
+			addr, err = e.w.NewAddress(at.acct, scopeOf[at.scope])
+		}
 		if err != nil {
 			return fmt.Errorf("NewAddress: %w", err)
 		}
@@ -997,7 +1023,7 @@ func (w *spWorld) observe(exp *spObs) {
 		a, _ := strconv.Atoi(as)
 		for mcs, cs := range ab.Spendable {
 			mc, _ := strconv.Atoi(mcs)
-			b, err := e.w.CalculateAccountBalances(uint32(a), int32(mc))
+			b, err := e.w.CalculateAccountBalances(acctNum(a), int32(mc))
 			w.n++
 			what := fmt.Sprintf("CalculateAccountBalances(account %d, minconf %d)", a, mc)
 			if err != nil {
@@ -1026,7 +1052,7 @@ func (w *spWorld) observe(exp *spObs) {
 				a, _ := strconv.Atoi(as)
 				var got int64 = -1
 				for _, r := range res {
-					if int(r.AccountNumber) == a {
+					if r.AccountNumber == acctNum(a) {
 						got = int64(r.AccountBalance)
 					}
 				}
@@ -1230,7 +1256,7 @@ func (w *spWorld) observeHistory(exp *spObs) {
 				continue
 			}
 			acct := w.acctOf(c, exp)
-			ins = append(ins, fmt.Sprintf("in%d:acct%d:%d", i, acct, w.outOf[c].Value))
+			ins = append(ins, fmt.Sprintf("in%d:acct%d:%d", i, acctNum(acct), w.outOf[c].Value))
 			sumIn += w.outOf[c].Value
 		}
 		for i, o := range k.tx.TxOut {
@@ -1239,7 +1265,7 @@ func (w *spWorld) observeHistory(exp *spObs) {
 			if !ok {
 				continue
 			}
-			outs = append(outs, fmt.Sprintf("out%d:acct%d:internal=%v", i, w.acctOf(c, exp), w.isChangeCoin(c)))
+			outs = append(outs, fmt.Sprintf("out%d:acct%d:internal=%v", i, acctNum(w.acctOf(c, exp)), w.isChangeCoin(c)))
 		}
 		sort.Strings(ins)
 		sort.Strings(outs)
